@@ -62,7 +62,7 @@ impl Var {
                     self.types[idx] = var_type.clone();
                 }
                 self.vars.retain(|k, v| {
-                    if !k.chars().last().unwrap_or('-').is_ascii_alphabetic() {
+                    if k.ends_with(|c| matches!(c, '$' | '!' | '#' | '%')) {
                         true
                     } else {
                         match v {
